@@ -116,6 +116,8 @@ def run(ctx):
         check_scope(ctx, gp)
     check_clock_forwarding(ctx, f)
     check_clock_range(ctx, f)
+    check_heads_equality(ctx, f)
+    check_succ_inc(ctx, f)
 
 
 def _is_clock(ty):
@@ -210,3 +212,72 @@ def check_scope(ctx, gp):
     # heads arm must not fall through to the isolation/transaction logic
     ret_in_some = [x for x in util.ret_defs(g) if g.edges_dominate(some_edges, x[0])]
     ctx.floor("returns in Some(heads) arm of " + gk, len(ret_in_some), 1)
+
+
+def check_heads_equality(ctx, f):
+    """the unscoped fast path of clock_at is right only for heads *equal* to the current ones as sets: the test is an == of two sets
+    (or of two sorted, deduplicated vectors), not a length comparison plus membership (a repeated head passes that)"""
+    ctx.rule("R2-headseq", "ChangeGraph::heads_are_current: every path returning a non-false result is behind the true edge of an equality call whose operands are both sets (BTreeSet / HashSet) or both normalised vectors (sort + dedup), one from self.heads, one from the argument")
+    HC = "automerge::change_graph::ChangeGraph::heads_are_current"
+    b = ctx.body(HC)
+    ctx.analysed_fns.add(HC)
+    hp = [i for i in range(1, b.argc + 1) if "ChangeHash" in b.local_ty(i)]
+    eqs = [(bi, t) for bi, t in b.calls() if (norm_fn(t.get("fn")) or "").endswith("PartialEq::eq") or (norm_fn(t.get("fn")) or "").endswith("PartialEq::ne")]
+    good = []
+    for bi, t in eqs:
+        tys = [util.strip_refs(x) for x in t.get("argtys", [])]
+        sets = all(("BTreeSet<" in x or "HashSet<" in x) for x in tys)
+        norm = all("Vec<" in x or x.startswith("[") for x in tys) and all({"sort", "sort_unstable", "dedup"} & {norm_fn(c).split("::")[-1] for c in b.provenance(a, through_calls=True).callees()} for a in t["args"])
+        pvs = [b.provenance(a, through_calls=True) for a in t["args"]]
+        from_self = any(any(b.origin(l, pr)[0] == 1 and ".heads" in b.origin(l, pr)[1] for l, pr in pv.places) for pv in pvs)
+        from_arg = any(hp and pv.depends_on_param(hp[0]) for pv in pvs)
+        if (sets or norm) and from_self and from_arg:
+            good.append(bi)
+    ctx.floor("equality calls in heads_are_current", len(eqs), 1)
+    # the function's result is that equality (or false)
+    rets = [(bi, st) for bi, blk in enumerate(b.blocks) if not blk.get("cleanup") for st in blk["st"] if st["d"]["l"] == 0 and not st["d"]["p"]]
+    rets += [(bi, None) for bi, t in b.calls() if t.get("dst") and t["dst"]["l"] == 0 and not t["dst"]["p"]]
+    bad = []
+    for bi, st in rets:
+        if st is None:
+            if bi not in good:
+                bad.append(util.where(b, bi))
+            continue
+        k = util.op_const(st["rv"]["o"][0]) if st["rv"]["k"] == "Use" else None
+        if k is not None and k.get("v") == "0":
+            continue            # a constant false is always safe (falls back to the scoped read)
+        pv = b.provenance(st["rv"]["o"][0], through_calls=False) if st["rv"].get("o") else None
+        if not (pv and any(cb in good for _, cb in pv.calls)):
+            bad.append(st["sp"])
+    ok = bool(good) and not bad
+    ctx.ob("R2-headseq", "heads_are_current|result is a set equality", ok, b.rec["sp"], "== of two sets built from self.heads and the argument (or constant false)" if ok else
+           "heads_are_current can answer true without comparing the argument and the current heads as sets (%s): a heads list with a repeated head is taken for the current heads and read unscoped" % (bad or "no set equality found"))
+
+
+def check_succ_inc(ctx, f):
+    """an increment is a successor that does not hide its counter: every visibility decision that walks an op's successors with their
+    increment values (SuccCursors::with_inc) tests that value"""
+    ctx.rule("R2-succinc", "sibling agreement: every bool-returning function that walks SuccCursors::with_inc tests the Option<i64> increment of a successor (discriminant switch or is_none / is_some)")
+    n = 0
+    for p, r in sorted(f.fns.items()):
+        if r["ckey"] != ("automerge", "lib") or "{closure" in p:
+            continue
+        if not any((callee(t) or "").endswith("SuccCursors::with_inc") for _, t in f.calls(r)):
+            continue
+        b = cfg.body(r)
+        if b.local_ty(0) != "bool":
+            continue
+        n += 1
+        ctx.analysed_fns.add(p)
+        tests = 0
+        for bd in [b] + [cfg.body(x) for x in f.closures_of(p)]:
+            for sb, sw in bd.switches():
+                src = bd.bool_operand_source(sw["op"])
+                if src and src["kind"] == "discr" and (src.get("ty") or "").startswith("core::option::Option<i64>"):
+                    tests += 1
+            for bi, t in bd.calls():
+                if (norm_fn(t.get("fn")) or "").endswith(("Option::is_none", "Option::is_some")) and "Option<i64>" in " ".join(t.get("argtys", [])):
+                    tests += 1
+        ctx.ob("R2-succinc", "%s|increments are not deletions" % norm_fn(p).split("op_set::")[-1], tests >= 1, r["sp"], "tests the successor's increment value" if tests else
+               "a successor covered by the clock hides the op whether or not it is an increment: an incremented counter disappears from listings at those heads")
+    ctx.floor("visibility predicates walking successors with increments", n, 2)
